@@ -86,6 +86,42 @@ def r_default_inputs(c):
     return dict(reproduced=bool(probs), why=probs[:3])
 
 
+@handler("walk_complexity")
+def r_walk_complexity(c):
+    """stacked diamonds on the real stack: the default-parameter discovery must return; exponential behaviour shows as a blow-up between depth 11 and 22"""
+    import signal, time
+    from torchjd.autojac._utils import _get_leaf_tensors
+    def build(d):
+        p = torch.tensor([0.3, -0.2], requires_grad=True)
+        h = p
+        for _ in range(d):
+            h = 0.5 * h + 0.1 * torch.tanh(h)
+        return p, h
+    def timed(d, limit):
+        p, h = build(d)
+        def onalarm(*a):
+            raise TimeoutError()
+        signal.signal(signal.SIGALRM, onalarm)
+        signal.alarm(limit)
+        t0 = time.perf_counter()
+        try:
+            leaves = _get_leaf_tensors([h], excluded=[])
+            ok = leaves == {p}
+            return time.perf_counter() - t0, ok
+        except TimeoutError:
+            return float("inf"), True
+        finally:
+            signal.alarm(0)
+    t1, ok1 = timed(11, 30)
+    t2, ok2 = timed(22, 30)
+    bad = []
+    if not (ok1 and ok2):
+        bad.append("the discovery returned a wrong leaf set")
+    if t2 == float("inf") or (t2 > 1.0 and t2 > 100 * max(t1, 1e-4)):
+        bad.append(f"default-parameter discovery on 22 stacked diamonds took {'more than 30' if t2 == float('inf') else round(t2, 2)} s ({round(t1, 4)} s on 11): exponential in the depth")
+    return dict(reproduced=bool(bad), why=bad, t11=t1, t22=None if t2 == float("inf") else t2)
+
+
 @handler("mixed_defaults")
 def r_mixed_defaults(c):
     from torchjd.autojac import mtl_backward
@@ -226,6 +262,69 @@ def r_typed(c):
                 except TypeError:
                     pass
         return dict(reproduced=False)
+    if w == "terms":
+        # the same term, rebuilt from the REAL transforms with the recorded sequence of free choices
+        nkeys, depth = int(c.get("nkeys", 3)), int(c["depth"])
+        ks = keys[:nkeys]
+        SUB = [frozenset(s_) for r in range(4) for s_ in itertools.combinations(range(3), r)]
+        SUB = [x for x in SUB if all(i < nkeys for i in x)]
+        script = iter(c["script"])
+        class Rejected(Exception):
+            pass
+        def gen(d):
+            kind = next(script)
+            if kind == 0:
+                sub = SUB[next(script)]
+                return Init([ks[i] for i in sorted(sub)]), frozenset(), sub
+            if kind == 1:
+                sub = SUB[next(script)]
+                return Diagonalize([ks[i] for i in sorted(sub)]), sub, sub
+            if kind == 2:
+                sub = SUB[next(script)]
+                return Accumulate([ks[i] for i in sorted(sub)]), sub, frozenset()
+            if kind == 3:
+                sub = SUB[next(script)]
+                sel = SUB[next(script)]
+                if not sel <= sub:
+                    try:
+                        Select([ks[i] for i in sel], [ks[i] for i in sub])
+                    except ValueError:
+                        raise Rejected()
+                    raise AssertionError(f"Select({sorted(sel)}, required={sorted(sub)}) accepted a non-subset")
+                return Select([ks[i] for i in sel], [ks[i] for i in sub]), sub, sel
+            a = gen(d - 1)
+            b = gen(d - 1)
+            if kind == 4:
+                okc = a[1] == b[2]
+                try:
+                    t = a[0] << b[0]
+                except ValueError:
+                    if okc:
+                        raise AssertionError("composition rejected although keys match")
+                    raise Rejected()
+                if not okc:
+                    raise AssertionError("composition accepted although keys differ")
+                return t, b[1], a[2]
+            okc = a[1] == b[1] and not (a[2] & b[2])
+            try:
+                t = a[0] | b[0]
+            except ValueError:
+                if okc:
+                    raise AssertionError("conjunction rejected although well formed")
+                raise Rejected()
+            if not okc:
+                raise AssertionError("conjunction accepted although ill formed")
+            return t, a[1], a[2] | b[2]
+        try:
+            t, req, out = gen(depth - 1)
+        except Rejected:
+            return dict(reproduced=False)
+        except AssertionError as e:
+            return dict(reproduced=True, why=[str(e)])
+        except StopIteration:
+            return dict(reproduced=None, error="the recorded choice script ended early")
+        ok = t.required_keys == {ks[i] for i in req} and t.output_keys == {ks[i] for i in out}
+        return dict(reproduced=not ok, why=[] if ok else [f"declared keys differ: required {len(t.required_keys)} / output {len(t.output_keys)}"])
     return dict(reproduced=None, error=f"no real-stack re-execution for typed/{w}")
 
 
@@ -238,7 +337,10 @@ def r_transform(c):
         outs, ins = c["outputs"], c["inputs"]
         if w == "grad":
             cot = {n: torch.tensor(np.asarray(arr(c["cot"][n]), dtype=float), dtype=torch.float64).reshape(prog[n].shape) for n in outs}
-            res = Grad([prog[n] for n in outs], [prog[n] for n in ins])(Gradients({prog[n]: cot[n] for n in outs}))
+            try:
+                res = Grad([prog[n] for n in outs], [prog[n] for n in ins])(Gradients({prog[n]: cot[n] for n in outs}))
+            except (RuntimeError, ValueError, TypeError, IndexError, KeyError) as e:
+                return dict(reproduced=True, why=[f"Grad raises on a valid input (inputs {ins}, outputs {outs}): {type(e).__name__}: {str(e)[:200]}"])
             probs = []
             for n in ins:
                 D = prog.total_jac(n)
@@ -251,7 +353,10 @@ def r_transform(c):
             return dict(reproduced=bool(probs), why=probs)
         Bn = int(c["batch"])
         cot = {n: torch.tensor(np.asarray(arr(c["cot"][n]), dtype=float), dtype=torch.float64).reshape((Bn,) + tuple(prog[n].shape)) for n in outs}
-        res = Jac([prog[n] for n in outs], [prog[n] for n in ins], chunk_size=c.get("chunk"))(Jacobians({prog[n]: cot[n] for n in outs}))
+        try:
+            res = Jac([prog[n] for n in outs], [prog[n] for n in ins], chunk_size=c.get("chunk"))(Jacobians({prog[n]: cot[n] for n in outs}))
+        except (RuntimeError, ValueError, TypeError, IndexError, KeyError) as e:
+            return dict(reproduced=True, why=[f"Jac raises on a valid input (inputs {ins}, outputs {outs}): {type(e).__name__}: {str(e)[:200]}"])
         probs = []
         for n in ins:
             D = prog.total_jac(n)
